@@ -226,6 +226,18 @@ func (x *c08Ctx) checkFile(f int, pub *protocol.PublishDiagnosticsParams, allPos
 				if fl := x.generic(req, uri, d.Range); fl != nil {
 					return fl
 				}
+				// a problem with an included file is shown on an include directive of this document
+				if strings.Contains(d.Message, "included file") || strings.Contains(d.Message, "cycle detected") || strings.Contains(d.Message, "include depth") {
+					onInclude := false
+					for _, l := range w.lexOnLine(f, int(d.Range.Start.Line)) {
+						if l.Kind == "path" && int(d.Range.Start.Line) == int(d.Range.End.Line) {
+							onInclude = true
+						}
+					}
+					if !onInclude {
+						return &c08Fail{"not-on-target(include)", "diagnostic(include)", fmt.Sprintf("%s: the include problem %q is reported at %s, where this document has no include directive", w.Names[f], d.Message, rangeStr(d.Range))}
+					}
+				}
 			}
 		}
 	}
@@ -437,6 +449,13 @@ func c08Forced() [][]string {
 			out = append(out, append([]string{na}, o...))
 		}
 	}
+	// non-ASCII text inside delimited tokens (code, quoted commodity) in front of further lexemes
+	for _, o := range [][]string{{"code.nonascii"}, {"code.nonascii", "hdr.payee-note"}, {"code.nonascii", "has.hcomment", "hcmt.tags"}, {"code.nonascii", "hdr.date2", "status.star"},
+		{"cmdty.quoted-symbols"}, {"cmdty.quoted-symbols", "has.cost"}, {"cmdty.quoted-symbols", "has.assert"}, {"cmdty.quoted-symbols", "has.pcomment", "pcmt.tags"}, {"cmdty.quoted-symbols", "has.totalcost"}} {
+		for k := 0; k < 6; k++ {
+			out = append(out, o)
+		}
+	}
 	return out
 }
 
@@ -461,7 +480,38 @@ func runC08(c *Ctx, idx int64) {
 		w = singleFileWS(j)
 	} else {
 		nf := Pick(r, []int{1, 1, 2, 3})
-		w = genWorkspace(r, st.bad, WSOpt{Files: nf, Entries: [2]int{1, 4}, Shape: "random"})
+		shape := "random"
+		deepError := nf == 3 && r.Chance(1, 2)
+		if deepError {
+			shape = "chain"
+		}
+		w = genWorkspace(r, st.bad, WSOpt{Files: nf, Entries: [2]int{1, 4}, Shape: shape})
+		if deepError {
+			// the innermost file of the chain main -> a -> b names a file that does not exist, far
+			// down: the problem has to be shown on each document's OWN include directive
+			j := w.Journals[nf-1]
+			for k := 0; k < 12; k++ {
+				j.Entries = append(j.Entries, &MEntry{Kind: "comment", Gap: "none", Comment: &MComment{Lead: " ", Free: "padding"}})
+			}
+			j.Entries = append(j.Entries, &MEntry{Kind: "dir", Gap: "one", Dir: &MDir{Kind: "include", Path: "nowhere-to-be-found.journal"}, Feats: []string{"dir.include"}})
+			// the middle file names the innermost one at its end, on a line where main has no directive
+			mid := w.Journals[1]
+			var inc, rest []*MEntry
+			for _, e := range mid.Entries {
+				if e.Kind == "dir" && e.Dir.Kind == "include" {
+					e.Gap = "one"
+					inc = append(inc, e)
+				} else {
+					rest = append(rest, e)
+				}
+			}
+			for k := 0; k < 5; k++ {
+				rest = append(rest, &MEntry{Kind: "comment", Gap: "none", Comment: &MComment{Lead: " ", Free: "padding"}})
+			}
+			mid.Entries = append(rest, inc...)
+			w.render()
+			c.Count("deep_include_error_workspaces", 1)
+		}
 	}
 	w.Root = r.Chance(1, 3)
 	dir := filepath.Join(c.Dir, fmt.Sprintf("w%d", idx))
